@@ -1210,3 +1210,9 @@ def slice_indices(interp, sl, n):
     start = adj(sl.start, z3.IntVal(-1), zn - 1, zn - 1)
     stop = adj(sl.stop, z3.IntVal(-1), zn - 1, z3.IntVal(-1))
   return (simplify_concrete(SInt(z3.simplify(start))), simplify_concrete(SInt(z3.simplify(stop))), step)
+
+
+@lib('typing.cast')
+def _typing_cast(interp, args, kwargs, frame):
+  """typing.cast is the identity at run time."""
+  return args[1] if len(args) > 1 else kwargs.get('val')
